@@ -43,14 +43,14 @@ def sample_row(k, fault, I):
     """Row k of the samples table with the given fault injected."""
     row = {'ID': 'S%d' % (k + 1), 'Instrument ID': 'I1', 'File Path': 's%d.fcs' % (k + 1),
            'Gate Fraction': 0.3 + 0.1 * k, 'Beads ID': 'B1', 'FL1 Units': 'MEF',
-           'FL2 Units': ['RFI', 'MEF', None][k], 'GFP Units': None}
+           'FL2 Units': ['RFI', 'MEF', None, 'a.u.'][k % 4], 'GFP Units': None}
     # (row 2 calibrates two channels, row 3 reports FL1 only: rows with different reported
     # channels make any state carried from one row to the next observable in the events, not
     # only in the call sequence)
     if fault == F_NOFILE:
         row['File Path'] = 'missing%d.fcs' % k
     elif fault == F_GATE:
-        row['Gate Fraction'] = [1.5, -0.1, 2.0][k]
+        row['Gate Fraction'] = [1.5, -0.1, 2.0, -3.0][k % 4]
     elif fault == F_UNITS:
         row['FL%d Units' % (1 + k % 2)] = BAD_UNITS[ch.pick(I['bu'], 0, len(BAD_UNITS))] \
             if ch.var_of(I['bu']) is not None else BAD_UNITS[I['bu']]
